@@ -14,12 +14,13 @@ Import ListNotations.
    6.2.4 (storage duration) and the ELF conventions prescribe: defined / undefined / absent, LOCAL or GLOBAL,
    FUNC / OBJECT / TLS / NOTYPE, .text / .data / .bss / .tdata / .tbss / COMMON, size and alignment.
    `live` is any decision procedure for "this function is emitted" (spec: reachable from an always-emitted
-   function).  Excluded, and shown below to be real defects of the C code: `extern` with an initializer;
-   a function whose first declaration is plain `inline` but which 6.7.4p7 makes an external definition.
-   There is no other restriction.  (Update 2: function designators in file-scope initializers, also of
-   static inline functions, are covered since /repo f841ff9.) *)
+   function).  Excluded, and shown below to be a real defect of the C code: an `extern` declaration with an
+   initializer of an object that an earlier declaration made `static` (chibicc emits it GLOBAL).  There is no
+   other restriction.  (Update 2: function designators in file-scope initializers are covered since /repo f841ff9.
+   Update 3: `extern` with an initializer - 2049a24 - and every mixture of inline / extern inline / plain
+   declarations in every order - 85373f4 - are covered; the hypotheses kb_extern_init and kb_inline_first are gone.) *)
 Theorem C15_emit_symtab : forall ds o live,
-  valid ds = true -> kb_extern_init ds = false -> kb_inline_first ds = false ->
+  valid ds = true -> kb_extern_init_static ds = false ->
   live_ok ds live ->
   forall n, symtab_of (emit o (parse_flags ds)) n = to_result (spec_entry live ds o n).
 Proof. exact emit_symtab_correct. Qed.
@@ -28,22 +29,22 @@ Print Assumptions C15_emit_symtab.
 (* the liveness hypothesis is never vacuous: the set mark_live computes IS such a decision procedure
    (mark_live's soundness and completeness, C15_live_only_if_reachable / C15_live_if_reachable, carried over
    to the specification's notion of an emitted function) *)
-Theorem C15_emit_live_exists : forall ds, valid ds = true -> kb_inline_first ds = false ->
+Theorem C15_emit_live_exists : forall ds, valid ds = true ->
   live_ok ds (model_live (ps_globals (parse ds))).
 Proof. exact model_live_ok. Qed.
 Print Assumptions C15_emit_live_exists.
 
 (* the specification's own computable closure (|ds|+1 rounds of the naive closure over the declared functions)
    decides "emitted" for EVERY unit; hence the theorem above with the specification as a function of the
-   declarations and options alone, pointwise and as the table nm prints: for all valid units without the two
-   deviations, symtab (emit (parse_flags decls) opts) = spec_symtab decls opts, and identifiers that are not
+   declarations and options alone, pointwise and as the table nm prints: for all valid units without the one
+   deviation, symtab (emit (parse_flags decls) opts) = spec_symtab decls opts, and identifiers that are not
    declared have no entry *)
 Theorem C15_emit_closure_live : forall ds, live_ok ds (closure_live ds).
 Proof. exact closure_live_ok. Qed.
 Print Assumptions C15_emit_closure_live.
 
 Theorem C15_emit_symbols : forall ds o,
-  valid ds = true -> kb_extern_init ds = false -> kb_inline_first ds = false ->
+  valid ds = true -> kb_extern_init_static ds = false ->
   nm_table (emit o (parse_flags ds)) (declared_names ds) = spec_symtab (closure_live ds) ds o
   /\ forall n, ~ In n (declared_names ds) -> symtab_of (emit o (parse_flags ds)) n = Absent.
 Proof. exact emit_table_correct. Qed.
@@ -51,14 +52,14 @@ Print Assumptions C15_emit_symbols.
 
 (* -fPIC never changes which symbols an object file has, nor their attributes *)
 Theorem C15_emit_pic_same_symbols : forall ds fc,
-  valid ds = true -> kb_extern_init ds = false -> kb_inline_first ds = false ->
+  valid ds = true -> kb_extern_init_static ds = false ->
   forall n, symtab_of (emit (mkOpts fc true) (parse_flags ds)) n = symtab_of (emit (mkOpts fc false) (parse_flags ds)) n.
 Proof. exact symtab_independent_of_pic. Qed.
 Print Assumptions C15_emit_pic_same_symbols.
 
 (* the assembler never meets a second definition of a symbol in the output for a valid unit *)
 Theorem C15_emit_no_redefinition : forall ds o n,
-  valid ds = true -> kb_extern_init ds = false -> kb_inline_first ds = false ->
+  valid ds = true -> kb_extern_init_static ds = false ->
   symtab_of (emit o (parse_flags ds)) n <> Clash.
 Proof. exact no_clash. Qed.
 Print Assumptions C15_emit_no_redefinition.
@@ -66,19 +67,26 @@ Print Assumptions C15_emit_no_redefinition.
 (* the assembler model applied to emit's output, in closed form: the events of the whole file are the
    per-object blocks side by side, whatever section / alignment state each block starts in *)
 Theorem C15_emit_blocks_independent : forall o prog,
-  asm P_text None (emit o prog) = flat_map (data_ev (fcommon o)) prog ++ flat_map (text_ev (fpic o) prog) prog.
+  asm P_text None (emit o prog) = flat_map (data_ev (fcommon o) prog) prog ++ flat_map (text_ev (fpic o) prog) prog.
 Proof. exact asm_emit. Qed.
 Print Assumptions C15_emit_blocks_independent.
 
 (* block-scope static objects, string literals, __func__ / __FUNCTION__ (identifiers without linkage, 6.2.2p6):
-   for EVERY translation unit - valid or not, any number of functions and items, thread-local block-scope statics
-   included (Update 2) - the labels .L..0, .L..1, ... are each defined exactly once, and the sections, sizes and
-   alignments the assembler records for them, in order of creation, are those of 6.2.4 (static storage duration:
-   .data when initialized, .bss otherwise; thread storage duration: .tdata / .tbss; strings in .data) with the
-   requested alignment and the psABI array alignment *)
-Theorem C15_emit_anonymous_objects : forall ds o, anon_placements (emit o (parse_flags ds)) = spec_anon ds.
+   for every valid unit the labels .L..0, .L..1, ... that are defined are defined exactly once, and the sections, sizes
+   and alignments the assembler records for them, in order of creation, are those of 6.2.4 (static storage duration:
+   .data when initialized, .bss otherwise; thread storage duration: .tdata / .tbss; strings in .data) with the requested
+   alignment and the psABI array alignment; (Update 3, 62ebd1d) the block-scope statics of a function that is not
+   emitted are not placed, its strings and __func__ arrays still are *)
+Theorem C15_emit_anonymous_objects : forall ds o live, valid ds = true -> live_ok ds live ->
+  anon_placements (emit o (parse_flags ds)) = spec_anon live ds.
 Proof. exact anon_placements_correct. Qed.
 Print Assumptions C15_emit_anonymous_objects.
+
+(* without any hypothesis: what is placed is exactly the anonymous objects whose owner function (if any) is marked live *)
+Theorem C15_emit_anonymous_objects_model : forall ds o,
+  anon_placements (emit o (parse_flags ds)) = map anon_entry (filter (owner_live (parse_flags ds)) (unit_anons 0 ds)).
+Proof. exact anon_placements_model. Qed.
+Print Assumptions C15_emit_anonymous_objects_model.
 
 (* gen_addr, all 64 combinations of (-fPIC) x (VLA, local, function, definition, thread-local): the
    instruction sequence is the cheapest form that is VALID for the class of the identifier under the option -
@@ -92,20 +100,40 @@ Theorem C15_emit_gen_addr_table : forall pic v,
 Proof. exact gen_addr_table. Qed.
 Print Assumptions C15_emit_gen_addr_table.
 
-(* the exclusions are real: each is a valid C unit on which the faithful model differs from the spec.
-   (1) extern int x = 5; defines nothing *)
-Theorem C15_emit_extern_init_refuted : valid bad_extern_init = true /\ kb_extern_init bad_extern_init = true /\
-  forall live, symtab_of (emit o_default (parse_flags bad_extern_init)) 1 = Absent
-               /\ spec_entry live bad_extern_init o_default 1 = Some (mkEntry B_global T_object P_data (Some 4%Z) (Some 4%Z)).
-Proof. exact extern_init_refuted. Qed.
-Print Assumptions C15_emit_extern_init_refuted.
+(* the exclusion is real: a valid C unit on which the faithful model differs from the spec.
+   static int x; extern int x = 5;  keeps internal linkage (6.2.2p4) but is emitted GLOBAL *)
+Theorem C15_emit_extern_init_static_refuted : valid bad_extern_init_static = true /\ kb_extern_init_static bad_extern_init_static = true /\
+  forall live, symtab_of (emit o_default (parse_flags bad_extern_init_static)) 1 = Present (mkEntry B_global T_object P_data (Some 4%Z) (Some 4%Z))
+               /\ spec_entry live bad_extern_init_static o_default 1 = Some (mkEntry B_local T_object P_data (Some 4%Z) (Some 4%Z)).
+Proof. exact extern_init_static_refuted. Qed.
+Print Assumptions C15_emit_extern_init_static_refuted.
 
-(* (2) inline long f(void) {..}  extern inline long f(void);  must be an external definition, is none *)
-Theorem C15_emit_inline_first_refuted : valid bad_inline_first = true /\ kb_inline_first bad_inline_first = true /\
-  forall live, symtab_of (emit o_default (parse_flags bad_inline_first)) 1 = Absent
-               /\ spec_entry live bad_inline_first o_default 1 = Some (mkEntry B_global T_func P_text None None).
-Proof. exact inline_first_refuted. Qed.
-Print Assumptions C15_emit_inline_first_refuted.
+(* repaired in /repo, formerly excluded (Update 3): the same witnesses, computed.
+   (1) extern int x = 5; is a GLOBAL OBJECT in .data *)
+Example C15_emit_extern_init_now_defined : valid ex_extern_init = true /\ no_known_bad ex_extern_init = true /\
+  symtab_of (emit o_default (parse_flags ex_extern_init)) 1 = Present (mkEntry B_global T_object P_data (Some 4%Z) (Some 4%Z))
+  /\ spec_entry (closure_live ex_extern_init) ex_extern_init o_default 1 = Some (mkEntry B_global T_object P_data (Some 4%Z) (Some 4%Z)).
+Proof. exact extern_init_now_defined. Qed.
+Print Assumptions C15_emit_extern_init_now_defined.
+
+(* (2) inline f(){..} extern inline f();  and  inline g(); g(){..}  are external definitions (GLOBAL); a lone unused inline h(){..} is absent *)
+Example C15_emit_inline_first_now_external : valid ex_inline_first = true /\ no_known_bad ex_inline_first = true /\
+  map (fun n => symtab_of (emit o_default (parse_flags ex_inline_first)) n) [1; 2; 3]%nat =
+    [Present (mkEntry B_global T_func P_text None None); Present (mkEntry B_global T_func P_text None None); Absent]
+  /\ map (fun n => spec_entry (closure_live ex_inline_first) ex_inline_first o_default n) [1; 2; 3]%nat =
+    [Some (mkEntry B_global T_func P_text None None); Some (mkEntry B_global T_func P_text None None); None].
+Proof. exact inline_first_now_external. Qed.
+Print Assumptions C15_emit_inline_first_now_external.
+
+(* (6) the block-scope static of a static inline function that is never used is not placed (its label is not even defined) *)
+Example C15_emit_dead_static_not_placed : valid ex_dead_static = true /\
+  anon_placements (emit o_default (parse_flags ex_dead_static)) =
+    [mkAnon P_data 3 1; mkAnon P_data 3 1; mkAnon P_data 3 1; mkAnon P_data 3 1; mkAnon P_data 3 1; mkAnon P_data 4 4]
+  /\ spec_anon (closure_live ex_dead_static) ex_dead_static =
+    [mkAnon P_data 3 1; mkAnon P_data 3 1; mkAnon P_data 3 1; mkAnon P_data 3 1; mkAnon P_data 3 1; mkAnon P_data 4 4]
+  /\ sym_lookup (asm P_text None (emit o_default (parse_flags ex_dead_static))) (Anon 2) = Absent.
+Proof. exact dead_static_not_placed. Qed.
+Print Assumptions C15_emit_dead_static_not_placed.
 
 (* repaired in /repo, formerly excluded (Update 2): the same witnesses, computed.
    (3) static inline x1, static inline x2, void *x3 = &x1;  -> x1 is a LOCAL function of the object file, x2 is not emitted *)
@@ -128,7 +156,7 @@ Print Assumptions C15_emit_fun_addr2_now_emitted.
    local-exec sequence without and the general-dynamic sequence with -fPIC *)
 Example C15_emit_static_tls_local_now_tls : valid ex_static_tls = true /\
   anon_placements (emit o_default (parse_flags ex_static_tls)) = [mkAnon P_data 3 1; mkAnon P_data 3 1; mkAnon P_tbss 4 4; mkAnon P_tdata 4 4]
-  /\ spec_anon ex_static_tls = [mkAnon P_data 3 1; mkAnon P_data 3 1; mkAnon P_tbss 4 4; mkAnon P_tdata 4 4]
+  /\ spec_anon (closure_live ex_static_tls) ex_static_tls = [mkAnon P_data 3 1; mkAnon P_data 3 1; mkAnon P_tbss 4 4; mkAnon P_tdata 4 4]
   /\ sym_lookup (asm P_text None (emit o_default (parse_flags ex_static_tls))) (Anon 2) = Present (mkEntry B_local T_tls P_tbss (Some 4%Z) (Some 4%Z))
   /\ existsb (fun d => match d with D_insn (I_add_tpoff (Anon 2)) => true | _ => false end) (emit (mkOpts true false) (parse_flags ex_static_tls)) = true
   /\ existsb (fun d => match d with D_insn (I_tlsgd (Anon 2)) => true | _ => false end) (emit (mkOpts true true) (parse_flags ex_static_tls)) = true.
@@ -148,7 +176,7 @@ Print Assumptions C15_emit_alignas_carried.
    pointer initializer, live / dead static inline functions, an unused inline definition, a block-scope static
    and a string satisfies every hypothesis; its two tables (-fcommon, and -fno-common -fPIC) are computed *)
 Example C15_emit_nonvacuous :
-  valid demo = true /\ kb_extern_init demo = false /\ kb_inline_first demo = false /\ no_known_bad demo = true
+  valid demo = true /\ no_known_bad demo = true
   /\ symtab_of (emit (mkOpts true false) (parse_flags demo)) 1 = Present (mkEntry B_global T_object P_common (Some 4%Z) (Some 4%Z))
   /\ symtab_of (emit (mkOpts false true) (parse_flags demo)) 1 = Present (mkEntry B_global T_object P_bss (Some 4%Z) (Some 4%Z))
   /\ symtab_of (emit (mkOpts true false) (parse_flags demo)) 10 = Present (mkEntry B_local T_func P_text None None)
